@@ -34,7 +34,7 @@ import time
 
 import common
 from common import short
-from gen import api_walk, c01_calls, texts
+from gen import api_walk, c01_calls, c01_mixed, texts
 
 MODELS = ['Validate', 'ApiHelpers', 'IterArgs']
 MODEL_TARGETS = ['JediModel.Lemmas.ValidateSpec', 'JediModel.Model.ApiHelpers', 'JediModel.Model.IterArgs',
@@ -754,6 +754,278 @@ def stream_typed_finish(ctx, reqs, join):
     return cases
 
 
+# ------------------------------------------------------------------ stream: mixed results
+
+# the position queries of api_walk plus the ones that look beyond the file (project-wide
+# references, builtin modules included or not; goto into compiled modules)
+MIXED_QUERIES = api_walk.position_queries() + [
+    ('get_references', {}), ('get_references', {'include_builtins': False}),
+    ('goto', {'follow_imports': True, 'follow_builtin_imports': True}),
+    ('infer', {'prefer_stubs': True}), ('goto', {'only_stubs': True}),
+]
+MIXED_LIGHT = [('infer', {}), ('goto', {}), ('goto', {'follow_imports': True}), ('help', {}), ('get_references', {}),
+               ('get_references', {'scope': 'file'})]
+_MIXED_ROOT = []
+
+
+def mixed_root(chdir=True):
+    """the project of gen.c01_mixed.LAYOUT on disk, once per process; workers and replay work
+    inside it (jedi's default project of a Script without path is found from the cwd)"""
+    if not _MIXED_ROOT:
+        import atexit
+        import shutil
+        import tempfile
+        top = tempfile.mkdtemp(prefix='verif-c01-mixed-', dir='/var/tmp')
+        root = os.path.join(top, 'proj')
+        os.makedirs(root)
+        os.makedirs(os.path.join(top, 'outside'))
+        c01_mixed.materialise(root)
+        atexit.register(shutil.rmtree, top, True)
+        _MIXED_ROOT.append(root)
+    if chdir and os.getcwd() != _MIXED_ROOT[0]:
+        os.chdir(_MIXED_ROOT[0])
+        # a parser cache of its own: the files of the project exist once per process, and the
+        # shared cache directory is written by every other jedi process of the machine
+        import jedi
+        jedi.settings.cache_directory = os.path.join(os.path.dirname(_MIXED_ROOT[0]), 'cache')
+    return _MIXED_ROOT[0]
+
+
+def mixed_script(source, path, project, chdir=True):
+    import jedi
+    root = mixed_root(chdir)
+    kw = {}
+    if path is not None:
+        kw['path'] = os.path.normpath(os.path.join(root, path))
+    if project == 'explicit':
+        kw['project'] = jedi.Project(root)
+    return jedi.Script(source, **kw)
+
+
+def result_mix(res):
+    """'' | 'mixed' | 'mixed-same-path': does the result list hold definitions with and without
+    a position (and under the same module_path)?"""
+    try:
+        rows = [(str(r.module_path or ''), r.line is None) for r in res]
+    except Exception:
+        return ''
+    if len({n for _, n in rows}) < 2:
+        return ''
+    paths_with = {p for p, n in rows if not n}
+    paths_without = {p for p, n in rows if n}
+    return 'mixed-same-path' if paths_with & paths_without else 'mixed'
+
+
+def mixed_item(item):
+    """worker of common.parallel_map (fresh interpreter): one program of gen.c01_mixed, every
+    query at every name / keyword / dot position, every documented attribute of every result
+    (the unabridged walk once per distinct result of this process, the cheap one always)"""
+    import random
+    t0 = time.process_time()
+    source, path, project = item['source'], item['path'], item['project']
+    full = item.get('full', False)
+    max_results = item.get('max_results', 4)
+    out = {'id': item['id'], 'positions': 0, 'queries': 0, 'objects': 0, 'errors': [], 'suppressed': 0,
+           'mixed': 0, 'mixed_same_path': 0, 'nopos_results': 0, 'by_query': {}}
+    seen_err = {}
+    cur = {}
+
+    def visit(method, obj):
+        out['objects'] += 1
+
+    def err(method, attr, e):
+        cls, site = exc_key(e)
+        k = (cls, site, attr is None)
+        seen_err[k] = seen_err.get(k, 0) + 1
+        if seen_err[k] > 2:
+            out['suppressed'] += 1
+            return
+        rec = dict(cur)
+        rec.update({'method': method, 'attribute': attr, 'exception': cls, 'site': site,
+                    'message': short(str(e), 200), 'frames': exc_frames(e)})
+        out['errors'].append(rec)
+
+    try:
+        script = mixed_script(source, path, project)
+    except Exception as e:
+        cur = {'line': None, 'column': None}
+        err('Script', None, e)
+        return out
+    rng = random.Random(item['id'] + source)
+    poss = c01_mixed.positions(source)
+    cap = item.get('max_positions')
+    if cap is not None and len(poss) > cap:
+        names = [p for p in poss if p[2] == 'name']
+        rest = [p for p in poss if p[2] != 'name']
+        keep = rng.sample(names, min(len(names), (3 * cap) // 4))
+        keep += rng.sample(rest, min(len(rest), cap - len(keep)))
+        poss = sorted(keep)
+    for (line, col, what) in poss:
+        out['positions'] += 1
+        cur = {'line': line, 'column': col}
+        queries = MIXED_QUERIES if (full or what != 'keyword') else MIXED_LIGHT
+        for name, kw in queries:
+            lab = api_walk.label(name, kw)
+            out['queries'] += 1
+            try:
+                res = api_walk.run_query(script, name, kw, line, col)
+            except Exception as e:
+                err(lab, None, e)
+                continue
+            if res is None:
+                continue
+            if not isinstance(res, (list, tuple)):
+                res = [res]
+            mix = result_mix(res[:16]) if name != 'complete' else ''
+            if mix:
+                out['mixed'] += 1
+                out['by_query'][name] = out['by_query'].get(name, 0) + 1
+                if mix == 'mixed-same-path':
+                    out['mixed_same_path'] += 1
+            # results without a position first: they are the ones this stream is about
+            res = sorted(res, key=lambda r: 0 if getattr(r, '_name', None) is not None and r._name.start_pos is None else 1)
+            for r in res[:max_results]:
+                ident = cheap_walk(lab, r, err)
+                if ident[6] == 'None':
+                    out['nopos_results'] += 1
+                if not full:
+                    if ident in _WALKED:
+                        out['objects'] += 1
+                        continue
+                    _WALKED.add(ident)
+                api_walk.walk_object(lab, r, visit, err, depth=1)
+    # position-free queries
+    cur = {'line': None, 'column': None}
+    for name, kw in api_walk.global_queries(search_strings=item.get('search', ('sqrt', 'mx.', 'sys', 'nsp.'))):
+        lab = api_walk.label(name, kw)
+        out['queries'] += 1
+        try:
+            res = api_walk.run_query(script, name, kw)
+        except Exception as e:
+            err(lab, None, e)
+            continue
+        for r in list(res)[:max_results]:
+            ident = cheap_walk(lab, r, err) if type(r).__name__ != 'SyntaxError' else None
+            if ident is not None and not full:
+                if ident in _WALKED:
+                    continue
+                _WALKED.add(ident)
+            api_walk.walk_object(lab, r, visit, err, depth=1)
+    out['cpu'] = round(time.process_time() - t0, 2)
+    return out
+
+
+def mixed_item_or_none(item):
+    return None if item is None else mixed_item(item)
+
+
+def stream_mixed_start(ctx):
+    """generates the programs (and, for a share, their edits = code being typed) and starts the
+    workers in a thread; returns a join function -> (items, results)"""
+    import glob
+    import threading
+    rng = ctx.subrng('mixed')
+    items = []
+    # regression inputs first
+    for k, path in enumerate(sorted(glob.glob(os.path.join(common.CORPUS_DIR, 'C01', 'mixed-*.json')))):
+        with open(path, encoding='utf-8') as f:
+            c = json.load(f)
+        items.append({'id': 'mk%d' % k, 'source': c['source'], 'path': c.get('path'), 'project': c.get('project', 'explicit'),
+                      'kinds': c.get('kinds', ['corpus']), 'family': 'mixed/corpus', 'full': True})
+    base = c01_mixed.programs(rng, ctx.size(60, 600))
+    for it in base:
+        it['family'] = 'mixed/valid'
+        items.append(it)
+        if rng.random() < ctx.size(0.15, 0.5):
+            for kind, src in c01_mixed.edits(rng, it['source']):
+                e = dict(it)
+                e.update({'id': '%s-%s' % (it['id'], kind), 'source': src, 'family': 'mixed/' + kind})
+                items.append(e)
+    for it in items:
+        it.setdefault('full', not ctx.quick)
+        it['max_results'] = ctx.size(4, 8)
+        it['max_positions'] = None if it['family'] == 'mixed/corpus' else ctx.size(14, None)
+    jobs = ctx.size(3, 14)
+    order = sorted(range(len(items)), key=lambda i: -len(items[i]['source']))
+    buckets = [[] for _ in range(jobs)]
+    for r, i in enumerate(order):
+        buckets[r % jobs].append(items[i])
+    box = {}
+
+    def work():
+        try:
+            size = max(max(len(b) for b in buckets), 20)
+            padded = []
+            for b in buckets:
+                padded += b + [None] * (size - len(b))
+            res = common.parallel_map('props.c01', 'mixed_item_or_none', padded, jobs=jobs, timeout=ctx.size(600, 3000))
+            box['res'] = [r for r in res if r is not None]
+        except BaseException as e:
+            box['exc'] = e
+    th = threading.Thread(target=work, daemon=True)
+    t0 = time.time()
+    th.start()
+
+    def join():
+        th.join()
+        if 'exc' in box:
+            raise box['exc']
+        ctx.notes.append('mixed stream workers: %.1fs wall' % (time.time() - t0))
+        return items, box['res']
+    return join
+
+
+def stream_mixed_finish(ctx, join):
+    items, results = join()
+    by_id = {it['id']: it for it in items}
+    how = ('gen.c01_mixed.materialise(project dir); os.chdir(it); s = jedi.Script(source, path=<project dir>/path or None, '
+           'project=jedi.Project(project dir) or the default); r = getattr(s, method)(line, column, **kw); then every '
+           'documented attribute of every result (harness/gen/api_walk.py)')
+    tot = {'positions': 0, 'queries': 0, 'objects': 0, 'mixed': 0, 'mixed_same_path': 0, 'nopos_results': 0,
+           'suppressed': 0, 'cpu': 0.0}
+    sites = {}
+    byq = {}
+    for r in results:
+        it = by_id[r['id']]
+        for k in tot:
+            tot[k] += r.get(k, 0)
+        for q, n in r['by_query'].items():
+            byq[q] = byq.get(q, 0) + n
+        pk = [k for k in it['kinds'] if k.startswith('path:')][0]
+        bucket = '%s/%s/%s' % (it['family'], pk, 'mixed-result' if r['mixed'] else 'no-mixed-result')
+        ctx.count('mixed', ('program', it['source'], it['path'], it['project']), nontrivial=r['mixed'] > 0, bucket=bucket,
+                  sample={'source': it['source'], 'path': it['path'], 'project': it['project'], 'kinds': it['kinds'],
+                          'queries': r['queries'], 'results mixing positioned and position-less definitions': r['mixed'],
+                          'of those under one module_path': r['mixed_same_path']})
+        for k in it['kinds']:
+            if k.startswith('join:'):
+                d = ctx.hist.setdefault('mixed-join', {})
+                d[k[5:]] = d.get(k[5:], 0) + r['mixed']
+        s = ctx.streams.setdefault('mixed', {'evaluations': 0, 'nontrivial': 0})
+        s['evaluations'] += r['queries']
+        s['nontrivial'] += r['mixed']
+        ctx.evaluations += r['queries']
+        for e in r['errors']:
+            key = (e['exception'], e['site'])
+            sites[key] = sites.get(key, 0) + 1
+            case = {'source': it['source'], 'line': e['line'], 'column': e['column'], 'method': e['method'],
+                    'attribute': e['attribute'], 'exception': e['exception'], 'site': e['site'], 'family': it['family'],
+                    'layout': 'c01_mixed', 'path': it['path'], 'project': it['project'], 'kinds': it['kinds']}
+            what = ('result attribute raised %s at %s' if e['attribute'] else 'internal exception %s at %s') % key
+            ctx.fail('api', what, case, expected='completes normally (the position is inside the text)',
+                     observed={'exception': e['exception'], 'site': e['site'], 'message': e['message'],
+                               'frames': e.get('frames', '')}, how=how)
+    ctx.notes.append('mixed stream: %d programs, %d positions, %d queries, %d result lists mixing definitions with and '
+                     'without a position (%d of them under one module_path; by query %s), %d position-less results '
+                     'walked, %d result objects walked, %.0f cpu-s; internal-exception sites: %s'
+                     % (len(results), tot['positions'], tot['queries'], tot['mixed'], tot['mixed_same_path'],
+                        dict(sorted(byq.items())), tot['nopos_results'], tot['objects'], tot['cpu'],
+                        {'%s@%s' % k: v for k, v in sorted(sites.items(), key=lambda kv: -kv[1])}))
+    if results and not tot['mixed_same_path']:
+        ctx.tie_broken('coverage:mixed', 'no generated program produced a result list that mixes positioned and '
+                                         'position-less definitions under one module_path')
+
+
 def stream_known(ctx):
     """inputs of the listed findings, kept alive so that each KNOWN-FINDING line stays honest"""
     import jedi
@@ -820,6 +1092,14 @@ def stream_known(ctx):
     attr_probe(src12, 'jedi.Script(source).infer(4, 1)', lambda: jedi.Script(src12).infer(4, 1), 'infer', None, 4, 1)
     src13 = 'def g(p=[y for y in z if q]):\n    pass\n'
     attr_probe(src13, 'jedi.Script(source).infer(1, 26)', lambda: jedi.Script(src13).infer(1, 26), 'infer', None, 1, 26)
+    src14 = 'import marshal\nmarshal'
+    attr_probe(src14, '[p.module_path for n in jedi.Script(source).infer(2, 7) for g in n.get_signatures() for p in g.params]',
+               lambda: [p.module_path for n in jedi.Script(src14).infer(2, 7) for g in n.get_signatures() for p in g.params],
+               'infer.get_signatures.params', 'ParamName.module_path', 2, 7)
+    src15 = 'import nsp\nx = [nsp]\n'
+    attr_probe(src15, 'Script(source, project=Project(<gen.c01_mixed.LAYOUT on disk>)).get_names()[1].get_type_hint()',
+               lambda: mixed_script(src15, None, 'explicit', chdir=False).get_names()[1].get_type_hint(),
+               'get_names', 'Name.get_type_hint')
     src6 = '[\n'
     attr_probe(src6, 'jedi.Script(source).complete()', lambda: jedi.Script(src6).complete(), 'complete', None)
 
@@ -967,19 +1247,34 @@ def run(ctx):
     def lap(name):
         t.append(time.time())
         ctx.notes.append('%s: %.1fs' % (name, t[-1] - t[-2]))
-    join_typed = stream_typed_start(ctx)
-    cases += stream_validate(ctx, reqs)
-    lap('validate')
-    cases += stream_methods(ctx, reqs)
-    lap('methods')
-    cases += stream_helpers(ctx, reqs)
-    lap('helpers')
-    stream_known(ctx)
-    lap('known probes')
-    cases += stream_api(ctx, reqs)
-    lap('api')
-    cases += stream_typed_finish(ctx, reqs, join_typed)
-    lap('typed (wait + oracle)')
+    # development aid: VERIF_C01_ONLY=mixed,api,... runs a subset of the streams
+    only = set(filter(None, os.environ.get('VERIF_C01_ONLY', '').split(',')))
+    on = lambda name: not only or name in only
+    if only:
+        ctx.notes.append('VERIF_C01_ONLY=%s: the other streams were skipped' % ','.join(sorted(only)))
+    join_typed = stream_typed_start(ctx) if on('typed') else None
+    join_mixed = stream_mixed_start(ctx) if on('mixed') else None
+    if on('validate'):
+        cases += stream_validate(ctx, reqs)
+        lap('validate')
+    if on('methods'):
+        cases += stream_methods(ctx, reqs)
+        lap('methods')
+    if on('helpers'):
+        cases += stream_helpers(ctx, reqs)
+        lap('helpers')
+    if on('known'):
+        stream_known(ctx)
+        lap('known probes')
+    if on('api'):
+        cases += stream_api(ctx, reqs)
+        lap('api')
+    if join_typed is not None:
+        cases += stream_typed_finish(ctx, reqs, join_typed)
+        lap('typed (wait + oracle)')
+    if join_mixed is not None:
+        stream_mixed_finish(ctx, join_mixed)
+        lap('mixed (wait + oracle)')
     if ctx.model_ok:
         answers = common.run_driver_parallel('C01', reqs)
         lap('driver')
@@ -1024,8 +1319,15 @@ def replay(ctx, payload):
     if 'source' in inp and inp.get('method'):
         first = inp['method'].split('.')[0]
         m = re.match(r'(\w+)', first)
-        script = jedi.Script(inp['source'])
-        queries = [(n, kw) for n, kw in api_walk.position_queries() + api_walk.global_queries()
+        if inp.get('layout') == 'c01_mixed':
+            # the project of gen.c01_mixed.LAYOUT is written to a fresh directory, the process
+            # moves into it, the Script gets the recorded path (relative to it) / project
+            script = mixed_script(inp['source'], inp.get('path'), inp.get('project'))
+            print('project directory:', mixed_root(), 'path:', inp.get('path'), 'project:', inp.get('project'))
+        else:
+            script = jedi.Script(inp['source'])
+        queries = [(n, kw) for n, kw in MIXED_QUERIES + api_walk.global_queries()
+                   + api_walk.global_queries(search_strings=('sqrt', 'mx.', 'sys', 'nsp.'))
                    if api_walk.label(n, kw) == first] or [(m.group(1), {})]
         name, kw = queries[0]
         try:
